@@ -1,0 +1,59 @@
+// SPDX-License-Identifier: (Apache-2.0 OR MIT)
+
+//! Verification hooks, compiled only with the `verif-hooks` feature.
+//!
+//! They let a test harness bound the number of instructions the interpreter executes (so that
+//! generated programs that loop return an error instead of spinning), and read how many
+//! instructions the last interpreter run executed. With the feature off, none of this exists.
+
+use core::sync::atomic::{AtomicU64, Ordering};
+
+/// Message of the error returned by the interpreter when the budget is exhausted.
+pub const BUDGET_EXHAUSTED_MSG: &str = "Error: verif-hooks instruction budget exhausted";
+
+static BUDGET: AtomicU64 = AtomicU64::new(u64::MAX);
+static EXECUTED: AtomicU64 = AtomicU64::new(0);
+
+/// Set the maximum number of instructions each subsequent interpreter run may execute
+/// (`u64::MAX`, the default, means unlimited).
+pub fn set_insn_budget(budget: u64) {
+    BUDGET.store(budget, Ordering::Relaxed);
+}
+
+/// Number of instructions fetched by the most recently finished interpreter run.
+pub fn insns_executed() -> u64 {
+    EXECUTED.load(Ordering::Relaxed)
+}
+
+pub(crate) struct BudgetGuard {
+    left: u64,
+    done: u64,
+}
+
+impl BudgetGuard {
+    pub(crate) fn new() -> Self {
+        BudgetGuard {
+            left: BUDGET.load(Ordering::Relaxed),
+            done: 0,
+        }
+    }
+
+    /// Account for one instruction; false when the budget is exhausted.
+    #[inline]
+    pub(crate) fn step(&mut self) -> bool {
+        if self.left == 0 {
+            return false;
+        }
+        if self.left != u64::MAX {
+            self.left -= 1;
+        }
+        self.done += 1;
+        true
+    }
+}
+
+impl Drop for BudgetGuard {
+    fn drop(&mut self) {
+        EXECUTED.store(self.done, Ordering::Relaxed);
+    }
+}
